@@ -336,6 +336,11 @@ class Exec:
         if isinstance(props, str):
             props = [props]
         props = set(props)
+        if getattr(self, 'in_prologue', False):
+            # the creator of a closure is verified by its own task; here it only builds the environment
+            if not isinstance(goal, bool):
+                self.assume(goal)
+            return True
         if self.engine.props_filter is not None and not (props & self.engine.props_filter):
             # not part of this check: assume (it is discharged by the check of its own property)
             if not isinstance(goal, bool):
